@@ -1971,8 +1971,8 @@ theorem findSome_none {α β : Type} (f : α → Option β) (l : List α) (h1 : 
     SetVolumeUnavailable — included: it answers "nowhere", which is exact for the normal volume and hides
     EC shards, the open finding SetVolumeUnavailable/empty-location-list-hides-ec-shards); a volume id
     without an entry is registered nowhere as a normal volume and is answered from the EC shard map
-    (whose exactness fails by the open finding UnRegisterDataNode/ec-shards-of-disconnected-server-stay-in-lookup
-    and is left to the correspondence check) -/
+    (whose exactness fails by the open finding UnRegisterDataNode/ec-shards-of-disconnected-server-stay-in-lookup;
+    with that finding excluded it is proved in `lookup_exact_all_partial`) -/
 theorem lookup_exact_of_inv {keyOf : Nat → Key} (hk : ∀ vid, (keyOf vid).disk < 2) {st : St} (h : Inv keyOf st) (vid : Nat) :
     (st.locs (keyOf vid) vid ≠ none →
       ∀ s, s ∈ lookup st vid ↔ (st.conn s = true ∧ ∃ v, volOf st s vid = some v)) ∧
